@@ -4,6 +4,135 @@ from pyvc.contracts import assumption, contract, for_property, klass, lemma, loo
 for_property("C15")
 TC = "pynguin.testcase.testcase"
 
+# ==== proved: crossover's building block keeps 'every variable a statement reads is bound by an earlier statement' =============
+# Statements are abstract: bound name, bound type and the set USED(node) of names the libcst node reads.
+klass("libcst:CSTNode", fields={})
+klass("libcst:SimpleStatementLine", fields={}, bases=["CSTNode"])
+klass("libcst:BaseCompoundStatement", fields={}, bases=["CSTNode"])
+klass("pynguin.assertion.assertion:Assertion", fields={})
+klass(f"{TC}:Statement", fields={
+    "node": "CSTNode", "bound_variable": "Optional[str]", "bound_type": "Optional[PyType]", "assertions": "list[Assertion]",
+    "accessible": "Optional[GenericAccessibleObject]", "ml_info": "Optional[MLStatementInfo]"})
+klass(f"{TC}:TestCase", fields={"_statements": "list[Statement]", "_var_counter": "int", "_code_cache": "Optional[str]",
+                                "_type_registry": "dict[PyType,list[str]]"})
+klass(f"{TC}:_VariableRenamer", fields={"_rename": "dict[str,str]"})
+ufun("USED", ["CSTNode"], "set[str]")            # names read by a statement node (Statement.used_variables)
+ufun("ISVAR", ["str"], "bool")                    # the name is a test-case variable (as opposed to a module alias, builtin ...)
+assumption("Statement.used_variables() is a pure function USED of the node (libcst visitor, cached); node.visit(_VariableRenamer(m)) "
+           "yields a node whose reads are the images of the original reads under m (names outside m unchanged) - the libcst "
+           "transformer is assumed, its table is exercised by the bounded part")
+contract(f"{TC}:Statement.used_variables", mode="assume", sig={"self": "Statement"}, returns="set[str]",
+         ensures=["result == USED(self.node)"])
+contract(f"{TC}:_VariableRenamer.__init__", sig={"self": "_VariableRenamer", "rename": "dict[str,str]"}, modifies=["self.ALL"],
+         ensures=["self._rename == rename"])
+REN = "(m[x] if x in m else x)"
+contract("libcst:CSTNode.visit", mode="assume", sig={"self": "CSTNode", "visitor": "_VariableRenamer"}, returns="CSTNode",
+         fresh_result=True,
+         ensures=["all((visitor._rename[x] if x in visitor._rename else x) in USED(result) for x in USED(self))",
+                  "all(any((visitor._rename[x] if x in visitor._rename else x) == y for x in USED(self)) for y in USED(result))",
+                  # only Name leaves are rewritten: the top-level statement node keeps its kind
+                  "isinstance(result, SimpleStatementLine) == isinstance(self, SimpleStatementLine)",
+                  "isinstance(result, BaseCompoundStatement) == isinstance(self, BaseCompoundStatement)"])
+predicate("stmt_nodes(t)", "all(isinstance(t._statements[i].node, SimpleStatementLine) or "
+                           "isinstance(t._statements[i].node, BaseCompoundStatement) for i in range(len(t._statements)))")
+contract("pynguin.utils.randomness:choice", mode="assume", sig={"sequence": "list[str]"}, returns="str",
+         raises={"IndexError": "len(sequence) == 0"}, ensures=["any(sequence[i] == result for i in range(len(sequence)))"])
+
+predicate("bound_in(t, nm)", "any(t._statements[j].bound_variable is not None and t._statements[j].bound_variable == nm "
+                             "for j in range(len(t._statements)))")
+# W1: def-before-use;  W2: the type registry only lists bound names;  D: bound names pairwise distinct
+predicate("w1(t)", "all(all(implies(ISVAR(x), any(t._statements[j].bound_variable is not None and "
+                   "t._statements[j].bound_variable == x for j in range(i))) for x in USED(t._statements[i].node)) "
+                   "for i in range(len(t._statements)))")
+# w1 as a *hypothesis* about a test case that does not change (the other parent), with the binder named by a Skolem function:
+# equivalent to w1 where it is assumed (never used where it has to be proved)
+ufun("BINDER", ["TestCase", "int", "str"], "int")
+predicate("w1_given(t)", "all(all(implies(ISVAR(x), 0 <= BINDER(t, i, x) and BINDER(t, i, x) < i and "
+                         "t._statements[BINDER(t, i, x)].bound_variable is not None and "
+                         "t._statements[BINDER(t, i, x)].bound_variable == x) for x in USED(t._statements[i].node)) "
+                         "for i in range(len(t._statements)))")
+predicate("w2(t)", "all(all(bound_in(t, t._type_registry[ty][k]) for k in range(len(t._type_registry[ty]))) "
+                   "for ty in keys(t._type_registry))")
+predicate("distinct(t)", "all(all(implies(i != j and t._statements[i].bound_variable is not None and "
+                         "t._statements[j].bound_variable is not None, "
+                         "t._statements[i].bound_variable != t._statements[j].bound_variable) "
+                         "for j in range(len(t._statements))) for i in range(len(t._statements)))")
+
+contract(f"{TC}:TestCase.statements", sig={"self": "TestCase"}, returns="list[Statement]",
+         ensures=["len(result) == len(self._statements)",
+                  "all(result[i] is self._statements[i] for i in range(len(result)))"])
+contract(f"{TC}:TestCase.variables_of_type", sig={"self": "TestCase", "t": "PyType"}, returns="list[str]",
+         requires=["w2(self)"], ensures=["all(bound_in(self, result[k]) for k in range(len(result)))"])
+contract(f"{TC}:TestCase.next_var_name", sig={"self": "TestCase"}, returns="str", modifies=["self._var_counter"],
+         ensures=["self._var_counter == old(self._var_counter) + 1"])
+assumption("TestCase._register (three lines: setdefault(bound_type, []).append(bound_variable), a list nested in a dict - outside "
+           "the verifier's value model of containers) only ever adds the statement's own bound variable to the registry (assumed)")
+contract(f"{TC}:TestCase._register", mode="assume", sig={"self": "TestCase", "stmt": "Statement"}, modifies=["self._type_registry"],
+         ensures=["all(all((ty in old(self._type_registry) and any(old(self._type_registry)[ty][q] == self._type_registry[ty][k] "
+                  "             for q in range(len(old(self._type_registry)[ty])))) "
+                  "        or (stmt.bound_variable is not None and self._type_registry[ty][k] == stmt.bound_variable) "
+                  "    for k in range(len(self._type_registry[ty]))) for ty in keys(self._type_registry))"])
+RENAME_OK = "all(bound_in(self, rename[x]) for x in keys(rename))"       # every remapped name is bound in this test case
+contract(f"{TC}:TestCase._resolve_head_references",
+         sig={"self": "TestCase", "stmt": "Statement", "head_types": "dict[str,Optional[PyType]]", "rename": "dict[str,str]",
+              "dropped": "set[str]"}, returns="bool",
+         requires=["w2(self)", RENAME_OK], modifies=["rename"],
+         ensures=["keys(old(rename)) <= keys(rename)", "all(rename[x] == old(rename)[x] for x in keys(old(rename)))", RENAME_OK,
+                  "all(x in keys(old(rename)) or x in keys(head_types) for x in keys(rename))",
+                  # a True answer: no read is dropped, and every read into the other parent's head has been remapped
+                  "implies(result, all(x not in dropped and (x in keys(rename) or x not in keys(head_types)) "
+                  "for x in USED(stmt.node)))"])
+loop(f"{TC}:TestCase._resolve_head_references", 0, invariant=[
+    "keys(old(rename)) <= keys(rename)", "all(rename[x] == old(rename)[x] for x in keys(old(rename)))", RENAME_OK,
+    "all(x in keys(old(rename)) or x in keys(head_types) for x in keys(rename))",
+    "all(x not in dropped and (x in keys(rename) or x not in keys(head_types)) for x in _done)"])
+
+TAIL = "other._statements[start + {k}]"
+contract(f"{TC}:TestCase.append_test_case_from", sig={"self": "TestCase", "other": "TestCase", "start": "int"},
+         requires=["self is not other", "0 <= start", "w1(self)", "w2(self)", "w1_given(other)", "distinct(other)", "stmt_nodes(other)",
+                   # the names statements bind are test-case variables
+                   "all(implies(other._statements[i].bound_variable is not None, ISVAR(other._statements[i].bound_variable)) "
+                   "for i in range(len(other._statements)))"],
+         modifies=["self._statements", "self._code_cache", "self._type_registry", "self._var_counter"],
+         raises={"IndexError": "False"},
+         ensures=["w1(self)", "w2(self)",
+                  "len(self._statements) >= len(old(self._statements))",
+                  "all(self._statements[i] is old(self._statements)[i] for i in range(len(old(self._statements))))"])
+loop(f"{TC}:TestCase.append_test_case_from", 0,
+     # frame of the loop: objects that exist at loop entry (all statements of both parents) keep their fields
+     modifies=["self._statements", "self._code_cache", "self._type_registry", "self._var_counter"],
+     invariant=[
+    "w1(self)", "w2(self)", RENAME_OK,
+    "len(self._statements) >= len(old(self._statements))",
+    "all(self._statements[i] is old(self._statements)[i] for i in range(len(old(self._statements))))",
+    # the head of the other parent: every bound name is a key of head_types
+    "all(implies(other._statements[j].bound_variable is not None, other._statements[j].bound_variable in keys(head_types)) "
+    "for j in range(min(start, len(other._statements))))",
+    # every name bound by an already processed tail statement has been renamed or dropped
+    "all(implies(_seq[k].bound_variable is not None, _seq[k].bound_variable in keys(rename) or _seq[k].bound_variable in dropped) "
+    "for k in range(_i))",
+    "all(_seq[k] is other._statements[start + k] for k in range(len(_seq)))", "len(_seq) == max(len(other._statements) - start, 0)",
+    # def-before-use of the other parent, restated along the progress of the loop: a variable read by a not yet processed tail
+    # statement is bound by the head, has been renamed or dropped, or is bound by a not yet processed earlier tail statement
+    # (the same fact as three lines above, indexed by positions of the other parent)
+    "all(implies(other._statements[q].bound_variable is not None, other._statements[q].bound_variable in keys(rename) or "
+    "other._statements[q].bound_variable in dropped) for q in range(start, min(start + _i, len(other._statements))))",
+    "all(all(implies(ISVAR(x), 0 <= BINDER(other, p, x) and BINDER(other, p, x) < p and "
+    "        other._statements[BINDER(other, p, x)].bound_variable is not None and "
+    "        other._statements[BINDER(other, p, x)].bound_variable == x) "
+    "    for x in USED(other._statements[p].node)) for p in range(start + _i, len(other._statements)))"],
+     derived=[
+    # ... hence (a cut proved from the invariants at the loop head): a variable the statement being processed reads is bound
+    # by the head, or has been renamed or dropped
+    "all(all(implies(ISVAR(x), x in keys(head_types) or x in keys(rename) or x in dropped or "
+    "        BINDER(other, p, x) >= start + _i) "
+    "    for x in USED(other._statements[p].node)) for p in range(start + _i, len(other._statements)))"])
+contract(f"{TC}:TestCase.add_statement", sig={"self": "TestCase", "stmt": "Statement"},
+         requires=["w2(self)"], modifies=["self._statements", "self._code_cache", "self._type_registry"],
+         ensures=["len(self._statements) == len(old(self._statements)) + 1",
+                  "all(self._statements[i] is old(self._statements)[i] for i in range(len(old(self._statements))))",
+                  "self._statements[len(self._statements) - 1] is stmt", "w2(self)"])
+
 
 # ==== bounded stand-in: the data structure operations and single-point crossover on enumerated well-formed test cases ==========
 import itertools  # noqa: E402
